@@ -200,6 +200,9 @@ def _use_lemma(ctx, args, kwargs):
 
 ModelsMixin.FUNCTION_MODELS.update({
     "pyvc.spec.use_lemma": _use_lemma,
+    "pyvc.spec.utf8_valid": (lambda ctx, args, kwargs: S.utf8_valid(args[0]) if not is_sym(args[0]) else
+                             __import__("pyvc.values", fromlist=["SBool"]).SBool(
+                                 __import__("pyvc.models", fromlist=["UTF8_OK"]).UTF8_OK(args[0].term))),
     "pyvc.spec.yaml_file": (lambda ctx, args, kwargs: "config.yaml"),
     "pyvc.spec.ghost_get": _ghost_get,
     "pyvc.spec.ghost_set": _ghost_set,
